@@ -531,8 +531,9 @@ def is_int_valued(z):
 class Den:
     """Denotation at one point.  env: terminal name -> Field (see c24_gen); x: tuple of exact numbers."""
 
-    def __init__(self, env, x, pert=None, _shared=None, dlevel=0):
+    def __init__(self, env, x, pert=None, _shared=None, dlevel=0, cplx=True):
         self.env = env
+        self.cplx = cplx  # complex data present: the float side may carry signed zeros in imaginary parts
         self.x = tuple(MP.mpf(v) if not isinstance(v, (MP.mpf,)) else v for v in x)
         self.pert = pert  # None or a random.Random: relative 1e-13 perturbation of all terminal data
         self.dlevel = dlevel
@@ -557,7 +558,7 @@ class Den:
     def shifted(self, k, delta):
         x = list(self.x)
         x[k] = x[k] + delta
-        d = Den(self.env, x, self.pert, self.sh, self.dlevel + 1)
+        d = Den(self.env, x, self.pert, self.sh, self.dlevel + 1, self.cplx)
         return d
 
     def ev(self, n):
@@ -675,7 +676,10 @@ class Den:
     def _cut(self, z, what):
         """Principal branch with the cut along the negative real axis."""
         if MP.re(z) < 0 and abs(MP.im(z)) <= TIE * abs(z):
-            self.flag("branch-cut:" + what)
+            # an exactly real negative argument has an unambiguous principal value unless the float side may
+            # carry a negative zero imaginary part (complex data)
+            if self.cplx or MP.im(z) != 0 or self.dlevel:
+                self.flag("branch-cut:" + what)
         if abs(z) < 1e-12:
             self.flag("branch-point:" + what)
 
